@@ -51,6 +51,7 @@ func runC16(c *Ctx) {
 	c.Rule("C16.O4", "E4", "closeWithError stops and clears both timers in the critical section that sets closed", 1)
 	c.Rule("C16.O5", "E4", "Write/Writev: the queue-empty edge stops and clears the write timer before the unlock", 2)
 	c.Rule("C16.O7", "E4", "DialAsyncTimeout arms the dial timer before the connection is registered with its poller: nothing arms a timer after the registration, when the completion that clears it may already have run", 1)
+	c.Rule("C16.O8", "E4", "the dial completion clears the dial timer before it runs the user's callback: a deadline the callback sets must survive the callback's return", 1)
 	c.Rule("C16.O6", "E5,E4", "keep-alive renewal sites exist and pass time.Now().Add(<engine>.KeepaliveTime)", 7)
 
 	L := c.Locks()
@@ -326,6 +327,14 @@ func runC16(c *Ctx) {
 			}
 			if fi.HasFact(st, func(ft ir.Fact) bool { e, ok := c.queueTest(ft); return ok && e }) && L.HeldClass(st, fConnMux) {
 				bad = ""
+				// "exactly": the other edge of that test must mean "something is queued"
+				for _, ft := range fi.Facts(st) {
+					if e, ok := c.queueTest(ft); ok && e && ft.If != nil {
+						if e2, ok2 := c.queueTest(ir.Fact{If: ft.If, Cond: ft.Cond, Truth: !ft.Truth}); !ok2 || e2 {
+							bad = "the write timer is cleared only when " + c.P.Desc(ft.Cond) + " (" + c.Pos(ft.If) + "), which is not 'queue empty': flush leaves an empty non-nil slice, so after a drained backlog a complete Write no longer cancels the deadline"
+						}
+					}
+				}
 			}
 		}
 		// the queue state that justifies the clear is the one after this call's own write:
@@ -385,6 +394,37 @@ func runC16(c *Ctx) {
 			}
 			c.Cond(bad == "", "C16.O7", key, c.FnPos(fn), fmt.Sprintf("%d arming site(s), all before the registration", nArm), bad)
 		}
+	}
+
+	// ------------------------------------------------------------------ O8
+	if fn := c.Fn("C16.O8", "(*nbio.Engine).DialAsyncTimeout"); fn != nil {
+		bad := "the completion wrapper that clears the dial timer was not found"
+		for _, g := range ir.Closures(fn) {
+			var clears, user []ssa.Instruction
+			for _, h := range ir.WithClosures(g) {
+				for _, cs := range c.P.Calls(h, nil) {
+					switch name := c.P.CalleeName(cs.Common); {
+					case name == "(*nbio.Conn).SetWriteDeadline" || name == "(*nbio.Conn).setDeadline":
+						clears = append(clears, cs.In)
+					case strings.HasPrefix(name, "dyn:") && strings.Contains(c.P.Desc(cs.Common.Value), "param#"):
+						user = append(user, cs.In)
+					}
+				}
+			}
+			if len(clears) == 0 || len(user) == 0 {
+				continue
+			}
+			bad = ""
+			fi := c.P.Info(g)
+			for _, cl := range clears {
+				for _, u := range user {
+					if _, isDefer := cl.(*ssa.Defer); isDefer || cl.Parent() != g || !fi.CanReach(cl, u) || fi.CanReach(u, cl) {
+						bad = "the dial timer is cleared at " + c.Pos(cl) + " after (or deferred past) the user's connect callback (" + c.Pos(u) + "): a write deadline set inside the callback is wiped when it returns"
+					}
+				}
+			}
+		}
+		c.Cond(bad == "", "C16.O8", fnKey(c.P, fn, "dial timer cleared before the callback"), c.FnPos(fn), "SetWriteDeadline(zero) precedes onConnected", bad)
 	}
 
 	// ------------------------------------------------------------------ O6
